@@ -158,6 +158,8 @@ func c11Entries() []string {
 		// regexp entries whose syntax must stay confined to the entry: a flag group, a pattern that only matches if case folding
 		// leaks into it, an unterminated \Q...
 		`regexp:(?i)^ZZ\.`, `regexp:^C\.`, `regexp:^b\Q.com`,
+		// two expressions whose text differs only in letter case and that mean different things
+		`regexp:^\D\D\.net$`, `regexp:^\d\d\.net$`,
 	}
 }
 
@@ -167,7 +169,7 @@ func c11Names() [][][]byte {
 		c11L("z", "b", "com"), c11L("x", "b", "com"), c11L("c", "com"), c11L("org"), c11L("a", "org"), nil,
 		c11L(c11L25, "com"), c11L("x", c11L25, "com"), c11L("y", c11L25, "com"), c11L(c11L63, "com"), c11L("z", c11L63, "com"),
 		c11L("a\x00", "com"), c11L("_x", "com"), c11L("\x01", "com"), c11L("1", "com"), c11L("a.b", "com"), c11L("a\\", "com"),
-		c11L("a\x00\x00", "com"), c11L("com\x00"), c11L("a", "com", "a"), c11L("xa", "com"), c11L("zz", "net"), c11L("c", "net"), c11L("b", "com|^1\\", "net"),
+		c11L("a\x00\x00", "com"), c11L("com\x00"), c11L("a", "com", "a"), c11L("xa", "com"), c11L("zz", "net"), c11L("11", "net"), c11L("c", "net"), c11L("b", "com|^1\\", "net"),
 		c11L("\xc3\x89", "com"), c11L("\xc3\xa9", "com"), c11L("\xff\xfe", "com"), c11L("\xe2\x84\xaa", "com"), c11L("k", "com"), c11L("\xef\xbf\xbd\xef\xbf\xbd", "com"),
 		c11L(strings.Repeat("p", 63), strings.Repeat("q", 63), strings.Repeat("r", 63), strings.Repeat("s", 57), "com"),
 		c11L(strings.Repeat("p", 63), strings.Repeat("q", 63), strings.Repeat("r", 63), strings.Repeat("s", 57), "org"),
@@ -253,6 +255,8 @@ func TestVerifC11(t *testing.T) {
 			c11LabelLengths(rep, x.N, x.N)
 		case "line-length":
 			c11LineLengths(rep, x.N, x.N)
+		case "fan-out":
+			c11FanOut(rep, 40)
 		default:
 			c11Run(rep, entries, refs, names, wires, x.Seq, x.Variant)
 		}
@@ -261,6 +265,7 @@ func TestVerifC11(t *testing.T) {
 	rep.Rule = fmt.Sprintf("all entry sequences (with repetition) of length 0..%d over a %d-entry alphabet x %d file layouts x %d query names; "+
 		"distinct = distinct (entry set, name, verdict) triples; every case is non-trivial by construction (entries are parents/children/duplicates/case variants of each other and of the names); "+
 		"plus a label-length sweep (every label length 1..63 x 4 octet styles as entry label / parent / child / tld / full:, queried with the same label, a sibling differing in the last octet, one octet shorter and longer, children) "+
+		"a fan-out sweep (a node with 1..40 children, one of them with a deeper entry, its own entry loaded first / in the middle / last / not at all) "+
 		"and a line-length sweep (every line length 0..%d in 6 file templates: long comment after an entry, long comment line, leading / trailing blanks, long regexp entry, long last line without newline; "+
 		"the comment text is made of dotted labels so that any piece of it read as an entry matches one of the 130 queried names)",
 		maxLen, len(entries), variants, len(names), report.ParamInt("MAXLINE", 9000))
@@ -286,6 +291,7 @@ func TestVerifC11(t *testing.T) {
 	}
 	rec(nil)
 	c11LabelLengths(rep, 1, 63)
+	c11FanOut(rep, 40)
 	if c11P == "C11" {
 		c11LineLengths(rep, 0, report.ParamInt("MAXLINE", 9000))
 	}
@@ -535,5 +541,40 @@ func TestVerifC11Concurrent(t *testing.T) {
 	for b := range bad {
 		rep.Violate(c11P+":concurrent:verdict-depends-on-other-calls", "with other Match calls running concurrently: "+b, nil)
 		break
+	}
+}
+
+// c11FanOut: a zone node with 1..max children, one of which (c0) also has a deeper entry; the entry for c0 itself is loaded first,
+// in the middle or last. Whatever the representation of a node's children does when it grows, the verdicts stay those of the set.
+func c11FanOut(rep *report.R, max int) {
+	idx := 0
+	for n := 1; n <= max; n++ {
+		for _, pos := range []string{"first", "middle", "last", "absent"} {
+			idx++
+			if !report.Owns(idx) {
+				continue
+			}
+			var lines []string
+			lines = append(lines, "x.c0.zone")
+			for i := 1; i < n; i++ {
+				lines = append(lines, fmt.Sprintf("c%d.zone", i))
+			}
+			switch pos {
+			case "first":
+				lines = append([]string{"c0.zone"}, lines...)
+			case "middle":
+				k := len(lines) / 2
+				lines = append(lines[:k:k], append([]string{"c0.zone"}, lines[k:]...)...)
+			case "last":
+				lines = append(lines, "c0.zone")
+			}
+			var rs []c11Ref
+			for _, ln := range lines {
+				rs = append(rs, c11ParseEntry([]byte(ln)))
+			}
+			names := [][][]byte{c11L("c0", "zone"), c11L("y", "c0", "zone"), c11L("x", "c0", "zone"), c11L("a", "x", "c0", "zone"), c11L("zone"), c11L("cx", "zone"),
+				c11L("c1", "zone"), c11L("q", "c1", "zone"), c11L(fmt.Sprintf("c%d", n-1), "zone"), c11L("q", fmt.Sprintf("c%d", n-1), "zone"), c11L(fmt.Sprintf("c%d", n), "zone")}
+			c11Check(rep, fmt.Sprintf("fan-out=%d:c0.zone-loaded-%s", n, pos), true, [][]byte{[]byte(strings.Join(lines, "\n") + "\n")}, rs, names, map[string]any{"Family": "fan-out", "N": n})
+		}
 	}
 }
